@@ -1,7 +1,7 @@
 (* Property C07 -- theorems only (R instance of Model/Steps.v; the binary64
    instance of the same definitions is executed against the implementation). *)
-From Coq Require Import Reals List Arith Bool Lia.
-From NV Require Import Base.Exn Model.FitCore Model.Steps Proofs.FitCoreP Proofs.StepsP.
+From Coq Require Import Reals List Arith Bool Lia Lra.
+From NV Require Import Base.Exn Model.FitCore Model.Steps Model.Poc Model.Median Proofs.FitCoreP Proofs.StepsP Proofs.MedianP Proofs.TieP.
 Import ListNotations.
 Local Open Scope R_scope.
 
@@ -116,3 +116,119 @@ Qed.
 
 Theorem C07_smooth_exhausted : forall s, r_tiebreak 0 s = Err ValueError.
 Proof. reflexivity. Qed.
+
+(* the exit test of the window-doubling loop, |sum d| = sum |d| over the differences of
+   neighbouring values, holds only for weakly monotone data ... *)
+Theorem C07_smooth_exit_test : forall s,
+  Rabs (rsum (diffs s)) = rsum (map Rabs (diffs s)) ->
+  (forall i, (S i < length s)%nat -> nth i s 0 <= nth (S i) s 0) \/
+  (forall i, (S i < length s)%nat -> nth (S i) s 0 <= nth i s 0).
+Proof.
+  intros s H. destruct (sum_abs_eq_one_sign _ H) as [Hp|Hn].
+  - left. apply diffs_nonneg_monotone. exact Hp.
+  - right. intros i Hi.
+    assert (G : forall l, (forall d, In d (diffs l) -> d <= 0) ->
+                forall i, (S i < length l)%nat -> nth (S i) l 0 <= nth i l 0).
+    { clear. induction l as [|a l IH]; intros H i Hi; [simpl in Hi; lia|].
+      destruct l as [|b l]; [simpl in Hi; lia|]. destruct i as [|i].
+      - simpl. assert (b - a <= 0); [apply H; simpl; left; reflexivity | lra].
+      - change (nth (S i) (a :: b :: l) 0) with (nth i (b :: l) 0).
+        change (nth (S (S i)) (a :: b :: l) 0) with (nth (S i) (b :: l) 0).
+        apply IH; [|simpl in *; lia]. intros d Hd. apply H. simpl. right. exact Hd. }
+    apply G; assumption.
+Qed.
+
+(* ... whereas the test on central differences (np.gradient), which the code used
+   before the repair a48a15a, accepts zigzagging data *)
+Theorem C07_gradient_test_refuted :
+  Forall (fun g => 0 < g) (Poc.np_gradient R Rminus Rdiv 2 zigzag) /\
+  nth 2 zigzag 0 < nth 1 zigzag 0.
+Proof. exact zigzag_gradient_positive. Qed.
+
+(* ---- height smoothing: the median filter, the window-doubling loop, the whole
+   function (Model/Median.v) ------------------------------------------------------------ *)
+(* every output sample of the median filter is an input sample; the length is kept *)
+Theorem C07_median_filter_selects : forall w l i, (0 < w)%nat -> (i < length l)%nat ->
+  In (nth i (r_median_filter w l) 0) l /\ length (r_median_filter w l) = length l.
+Proof. intros w l i Hw Hi. split; [exact (median_filter_In w l i Hw Hi) | exact (median_filter_length w l)]. Qed.
+
+(* weakly monotone data pass the filter unchanged (increasing: any window;
+   decreasing: odd windows, which is what the doubling w -> 2w+1 keeps) *)
+Theorem C07_median_filter_monotone_identity :
+  (forall w l, (0 < w)%nat ->
+     (forall i j, (i < j < length l)%nat -> nth i l 0 <= nth j l 0) -> r_median_filter w l = l) /\
+  (forall h l,
+     (forall i j, (i < j < length l)%nat -> nth j l 0 <= nth i l 0) ->
+     r_median_filter (2 * h + 1) l = l).
+Proof. split; [exact median_filter_asc_id | exact median_filter_desc_id]. Qed.
+
+(* the whole function: when it returns, the first loop stopped at some window with a
+   weakly monotone filter output s, the second loop turned s into pairwise distinct
+   values, and the number of samples is that of the input *)
+Theorem C07_smooth_whole : forall m w data out, r_smooth m w data = Ok out ->
+  length out = length data /\ NoDup out /\
+  exists w' s, r_widen m w data = Ok (w', s) /\ s = r_median_filter w' data /\
+    ((forall i, (S i < length s)%nat -> nth i s 0 <= nth (S i) s 0) \/
+     (forall i, (S i < length s)%nat -> nth (S i) s 0 <= nth i s 0)) /\
+    r_tiebreak m s = Ok out.
+Proof.
+  intros m w data out H. destruct (smooth_length_distinct _ _ _ _ H) as [Hl Hd].
+  split; [exact Hl|]. split; [exact Hd|].
+  destruct (smooth_spec _ _ _ _ H) as [w' [s [Hw Ht]]]. exists w', s.
+  destruct (widen_spec _ _ _ _ _ Hw) as [Es Hm]. repeat split; assumption.
+Qed.
+
+(* strictly monotone data are returned unchanged: the function is idempotent on
+   its own (strictly monotone) results *)
+Theorem C07_smooth_fixed_point : forall m data,
+  (forall w, (0 < w)%nat ->
+     (forall i j, (i < j < length data)%nat -> nth i data 0 < nth j data 0) ->
+     r_smooth (S m) w data = Ok data) /\
+  (forall h,
+     (forall i j, (i < j < length data)%nat -> nth j data 0 < nth i data 0) ->
+     r_smooth (S m) (2 * h + 1) data = Ok data).
+Proof. intros m data. split; [intros w Hw H; exact (smooth_fixed_asc m w data Hw H) | intros h H; exact (smooth_fixed_desc m h data H)]. Qed.
+
+Theorem C07_smooth_loops_exhausted : forall w data, r_widen 0 w data = Err ValueError.
+Proof. exact widen_exhausted. Qed.
+
+(* the exit test |sum d| = sum |d| (used until the repair recorded as D28) is not
+   a sign test in binary64: a contrary step is absorbed by rounding *)
+Theorem C07_sum_test_refuted_in_floats :
+  PrimFloat.eqb (PrimFloat.abs (f_sum absorbed)) (f_sum (map PrimFloat.abs absorbed)) = true /\
+  Median.one_sign PrimFloat.float PrimFloat.leb PrimFloat.zero absorbed = false.
+Proof. exact sum_test_absorbs. Qed.
+
+Example C07_smooth_fixed_point_nonvacuous :
+  r_smooth 1000 15 [3; 2; 1] = Ok [3; 2; 1].
+Proof.
+  apply (proj2 (C07_smooth_fixed_point 999 [3; 2; 1]) 7%nat).
+  intros i j Hij. simpl in Hij.
+  destruct i as [|[|[|i]]]; destruct j as [|[|[|j]]]; simpl; try lia; lra.
+Qed.
+
+(* ---- height smoothing, complete: the result is strictly monotonic -------------------- *)
+(* one pass of the tie-breaking loop changes every difference of neighbouring samples
+   into a non-negative combination of differences of the data it started from *)
+Theorem C07_tiebreak_pass_differences : forall s i, (S i < length s)%nat ->
+  exists al ka j, 0 <= al /\ 0 <= ka /\ (S j < length s)%nat /\
+    nth (S i) (r_tb_update s (r_find_equal s 0 false)) 0
+    - nth i (r_tb_update s (r_find_equal s 0 false)) 0
+    = al * (nth (S i) s 0 - nth i s 0) + ka * (nth (S j) s 0 - nth j s 0).
+Proof. exact tb_pass_diff. Qed.
+
+(* whenever smooth_axis_monotone returns, the result has the length of the input and is
+   strictly increasing or strictly decreasing *)
+Theorem C07_smooth_strictly_monotone : forall m w data out, r_smooth m w data = Ok out ->
+  length out = length data /\
+  ((forall i j, (i < j < length out)%nat -> nth i out 0 < nth j out 0) \/
+   (forall i j, (i < j < length out)%nat -> nth j out 0 < nth i out 0)).
+Proof.
+  intros m w data out H. destruct (C07_smooth_whole m w data out H) as [Hl [_ [w' [s [_ [_ [Hm Ht]]]]]]].
+  split; [exact Hl|]. destruct Hm as [Hm|Hm].
+  - left. exact (tiebreak_strict_asc m s out Hm Ht).
+  - right. exact (tiebreak_strict_desc m s out Hm Ht).
+Qed.
+
+(* (hypothesis satisfiable: C07_smooth_fixed_point_nonvacuous above; inputs with ties are
+   executed in the binary64 instance against the implementation) *)
